@@ -238,7 +238,13 @@ def hfe_image(sides, encoding, version=1, pad_tracks=True, ntracks=None, lut_blo
             tr += b'\x00' * (512 - len(tr) % 512)
         body += tr
         block += len(tr) // 512
-    return bytes(hdr) + bytes(lut) + bytes(body)
+    if lut_block == 1 and first_track_block == 2:
+        return bytes(hdr) + bytes(lut) + bytes(body)
+    # general layout: the track list sits in block `lut_block`, track data starts in block `first_track_block` (> lut_block)
+    out = bytearray(b'\xff' * (512 * first_track_block)) + body
+    out[0:512] = hdr
+    out[512 * lut_block:512 * lut_block + 512] = lut
+    return bytes(out)
 
 
 # ---------------------------------------------------------------- HxC MFM
@@ -301,7 +307,7 @@ def disc_to_tracks(surface, ntracks, spt, head, encoding, order=None, **kw):
     return out
 
 
-def hfe_from_surfaces(surfaces, ntracks, spt, encoding, version=1, order=None, pad_tracks=True, lut_exact=False, **kw):
+def hfe_from_surfaces(surfaces, ntracks, spt, encoding, version=1, order=None, pad_tracks=True, lut_exact=False, lut_block=1, first_track_block=2, **kw):
     sides = []
     for head, surf in enumerate(surfaces):
         trs = disc_to_tracks(surf, ntracks, spt, head, encoding, order, **kw)
@@ -309,7 +315,7 @@ def hfe_from_surfaces(surfaces, ntracks, spt, encoding, version=1, order=None, p
             sides.append([pack_lsb_first(fm_to_hfe_cells(b)) for b, _, _ in trs])
         else:
             sides.append([pack_lsb_first(b) for b, _, _ in trs])
-    return hfe_image(sides, encoding, version, pad_tracks, lut_exact=lut_exact)
+    return hfe_image(sides, encoding, version, pad_tracks, lut_exact=lut_exact, lut_block=lut_block, first_track_block=first_track_block)
 
 
 def hxcmfm_from_surfaces(surfaces, ntracks, spt, order=None, **kw):
